@@ -11,7 +11,7 @@ use std::panic::{self, AssertUnwindSafe};
 use std::time::Duration;
 
 use bitcoin::bech32::primitives::decode::CheckedHrpstring;
-use bitcoin::bech32::{Bech32, ByteIterExt, Fe32, Fe32IterExt, Hrp, NoChecksum};
+use bitcoin::bech32::{Bech32, ByteIterExt, Fe32, Fe32IterExt, Hrp};
 use bitcoin::hashes::{sha256, Hash};
 use bitcoin::secp256k1::{Keypair, PublicKey, Secp256k1, SecretKey};
 use bitcoin::{Network, PubkeyHash, ScriptHash, WitnessVersion};
@@ -194,18 +194,17 @@ fn eval_line(l: &str) -> String {
 				Err(_) => "Err".into(),
 			}
 		},
-		// BOLT 12 string layer: NoChecksum + padding validation + regrouping
+		// BOLT 12 string layer as the library runs it (Bech32Encode::from_bech32_str via Offer::from_str):
+		// NoChecksum decode, hrp comparison, padding validation, regrouping; the TLV/semantic layers
+		// behind it only matter for telling "string layer passed" from the string-layer errors
 		"decn" => {
+			use lightning::offers::parse::Bolt12ParseError as E;
 			let s = String::from_utf8_lossy(&unhex(a)).to_string();
-			match CheckedHrpstring::new::<NoChecksum>(&s) {
-				Ok(p) => match p.validate_segwit_padding() {
-					Ok(()) => format!(
-						"Ok {} {}",
-						hex(p.hrp().to_string().as_bytes()),
-						hex(&p.byte_iter().collect::<Vec<u8>>())
-					),
-					Err(_) => "ErrPadding".into(),
-				},
+			match s.parse::<Offer>() {
+				Ok(o) => format!("Ok {}", hex(&wbytes(&o))),
+				Err(E::Decode(_)) | Err(E::InvalidSemantics(_)) | Err(E::InvalidSignature(_)) => "OkLayer".into(),
+				Err(E::InvalidPadding(_)) => "ErrPadding".into(),
+				Err(E::InvalidBech32Hrp) => "ErrHrp".into(),
 				Err(_) => "Err".into(),
 			}
 		},
@@ -1118,10 +1117,13 @@ fn gen_b12(r: &R, thorough: bool) {
 		}
 	}
 	// every single-bit flip of signed streams; merkle roots for the model
-	let nflip = if thorough { signed.len() } else { 14 };
-	let stepk = (signed.len() / nflip.max(1)).max(1);
-	for (i, sg) in signed.iter().enumerate() {
-		let do_flip = i % stepk == 0;
+	// all bits of every signed object (thorough) / of the first few objects of each kind (quick)
+	let per_kind = if thorough { usize::MAX } else { 5 };
+	let mut seen: std::collections::HashMap<&'static str, usize> = std::collections::HashMap::new();
+	for sg in signed.iter() {
+		let c = seen.entry(sg.kind).or_insert(0);
+		*c += 1;
+		let do_flip = *c <= per_kind;
 		let (nf, viol) = if do_flip { flip_all_bits(sg.kind, &sg.bytes, 1) } else { (0, vec![]) };
 		// an extra unknown odd record outside the signature range must invalidate the signature (or the parse)
 		let mut viol = viol;
